@@ -269,6 +269,13 @@ class Tr:
             return self.block(rest, ind)            # docstring
         if isinstance(s, ast.Expr) and isinstance(s.value, ast.Call) and self.dotted(s.value.func) == "warnings.warn":
             return self.block(rest, ind)            # a warning is not part of the modelled result
+        if isinstance(s, ast.Expr) and isinstance(s.value, ast.Call) and self.dotted(s.value.func) in self.t.calls \
+                and len(self.t.calls[self.dotted(s.value.func)]) > 2 and self.t.calls[self.dotted(s.value.func)][2] == "self":
+            # e.g. `Interval.__init__(self, start, end)`: the callee (re)initialises `self`
+            fn = self.t.calls[self.dotted(s.value.func)][0]
+            args = " ".join(self.e(a) for a in s.value.args[1:])
+            self.uses_bind = True
+            return f"{pad}let self ← {fn} {args}\n" + self.block(rest, ind)
         if isinstance(s, ast.Return):
             if s.value is None:
                 raise Unsupported("bare return")
@@ -431,6 +438,27 @@ def targets():
                              ("self", "start"): ("Interval_set_start self {v}", True, False),
                              ("self", "end"): ("Interval_set_end self {v}", True, False)}, monadic=True,
                doc="constructor: both fields None, then the two property setters"),
+        Target("AngleInterval_set_start", U, "start", "AngleInterval",
+               [(None, "τ : Rat"), ("self", "self : Option Rat × Option Rat"), ("start", "start : Rat")],
+               "Option Rat × Option Rat", attrs={("self", "_end"): "(self.2.getD 0)"}, opt_attrs={("self", "_end"): "self.2"},
+               assign_attrs={("self", "_start"): ("({v}, self.2)", False, True)}, monadic=True, setter=True,
+               calls={"is_valid_orientation": ("CR.Iv.validOrientation τ", False)}),
+        Target("AngleInterval_set_end", U, "end", "AngleInterval",
+               [(None, "τ : Rat"), ("self", "self : Option Rat × Option Rat"), ("end", "end_ : Rat")],
+               "Option Rat × Option Rat", attrs={("self", "_start"): "(self.1.getD 0)"}, opt_attrs={("self", "_start"): "self.1"},
+               assign_attrs={("self", "_end"): ("(self.1, {v})", False, True)}, monadic=True, setter=True,
+               calls={"is_valid_orientation": ("CR.Iv.validOrientation τ", False)}),
+        Target("AngleInterval_base_init", U, "__init__", "Interval", [(None, "τ : Rat"), ("start", "start : Rat"), ("end", "end_ : Rat")],
+               "Option Rat × Option Rat",
+               assign_attrs={("self", "_start"): ("({v}, self.2)", False, True), ("self", "_end"): ("(self.1, {v})", False, True),
+                             ("self", "start"): ("AngleInterval_set_start τ self {v}", True, False),
+                             ("self", "end"): ("AngleInterval_set_end τ self {v}", True, False)}, monadic=True,
+               doc="Interval.__init__ run on an AngleInterval object: the property setters are AngleInterval's"),
+        Target("AngleInterval_init", U, "__init__", "AngleInterval",
+               [(None, "τ : Rat"), (None, "fuel : Nat"), ("start", "start : Rat"), ("end", "end_ : Rat")], "Option Rat × Option Rat",
+               names={"TWO_PI": "τ"}, monadic=True,
+               calls={"make_valid_orientation_interval": ("make_valid_orientation_interval τ fuel", False),
+                      "Interval.__init__": ("AngleInterval_base_init τ", True, "self")}),
         Target("Interval_length", U, "length", "Interval", [("self", "self : CR.Iv.I")], "Rat", attrs=dict(I)),
         Target("Interval_gt_num", U, "__gt__", "Interval", [("self", "self : CR.Iv.I"), ("other", "other : Rat")], "Bool",
                attrs=dict(I), types={"other": "num"}),
@@ -490,6 +518,9 @@ def targets():
                calls={"self.traffic_light_cycle.get_state_at_time_step": ("TrafficLightCycle_get_state_at_time_step es off", True)},
                monadic=True, doc="the light delegates to its cycle (es, off are the cycle's elements and offset)"),
     ]
+    # definitions that call make_valid_orientation_interval must come after it
+    late = [t for t in ts if t.name in ("AngleInterval_set_start", "AngleInterval_set_end", "AngleInterval_base_init", "AngleInterval_init")]
+    ts = [t for t in ts if t not in late] + late
     return ts
 
 
